@@ -47,6 +47,7 @@ func TestWorker(t *testing.T) {
 }
 
 func init() {
+	endorse.VerifDeterministicDoc = true // hook H4
 	core.Register(&core.Check{
 		ID: "C20", World: "K (Cloud KMS)", Level: "exploration",
 		Rule: "one evaluation = one operation of the real gcpkms Manager/Signer (Sign with PSS/SHA-256 and with other options; CreateNewRootKey / CreateFirstSigningKey over an existing key with a drawn version population; CreateNewSigningKeyVersion; Wipeout; rotate.Bootstrap + rotate.Key end to end over gcsca+SimDisk) against SimKMS inside a synctest bubble: populations {0,1,2,99,100,101,199,200,201,250,random} per key and around 100 keys per ring, version states drawn, paging policy drawn (exact pages, short pages, empty last page, one-element pages), generation latency 0-120 simulated seconds ending ENABLED / GENERATION_FAILED / DESTROYED, context deadlines, an RPC failure at a drawn call, integrity faults on AsymmetricSign (signature bit, CRC bit, each verified flag, digest corrupted in transit); " +
